@@ -4,5 +4,5 @@ CONSTANTS
   Width = "quick"
   MaxForge = 0
   ScenarioSet = "none"
-INVARIANTS TypeOK MakeJoinExact MakeLeaveExact TemplateShape SendJoinExact InviteExact InviteV3Exact ReturnsCountersigned PerformJoinExact NoJoinWithoutBothHandlers BannedNeverJoins RetrySucceedsWhereAFreshJoinWould UnforgedPublicJoinSucceeds UnforgedRestrictedJoinSucceeds TamperedNeverAccepted TemplateAuthoriser OtherIdentitiesIrrelevant Emit
+INVARIANTS TypeOK CaseVariantIsAnotherServer MakeJoinExact MakeLeaveExact TemplateShape SendJoinExact InviteExact InviteV3Exact ReturnsCountersigned PerformJoinExact NoJoinWithoutBothHandlers BannedNeverJoins RetrySucceedsWhereAFreshJoinWould UnforgedPublicJoinSucceeds UnforgedRestrictedJoinSucceeds TamperedNeverAccepted TemplateAuthoriser OtherIdentitiesIrrelevant Emit
 CHECK_DEADLOCK FALSE
